@@ -1477,7 +1477,8 @@ def nontrivial(case, obs):
     if case["kind"] == "fn":
         return len(case["params"]) >= 1 and "skip" not in obs
     if case["kind"] == "e2e":
-        return any(s["op"] == "call" and (s["pos"] or s["named"] or s.get("ret")) for s in case["prog"]["main"])
+        return any(s["op"] == "call" and (s["pos"] or s["named"] or s.get("ret")) for s in case["prog"]["main"]) or \
+            (case.get("mode", "").startswith("hist") and sum(1 for s in case["prog"]["main"] if s["op"] == "call") >= 2)
     return True
 
 
@@ -1508,6 +1509,20 @@ def tags(case, obs):
             t.append("has:global")
         if any(s["op"] == "call" for f in case["prog"]["flows"] for s in f["body"]):
             t.append("has:nested-call")
+        if case["mode"].startswith("hist"):
+            pr = case["prog"]
+            bodies = [pr["main"]] + [f["body"] for f in pr["flows"]]
+            t.append("muts=%d" % min(sum(1 for b in bodies for s in b if s["op"] == "mut"), 9))
+            calls = [s for s in pr["main"] if s["op"] == "call"]
+            t.append("calls=%d" % len(calls))
+            fl = {f["name"]: f for f in pr["flows"]}
+            omitted = sum(1 for c in calls for i, p_ in enumerate(fl[c["flow"]]["params"])
+                          if p_.get("default") is not None and i >= len(c["pos"]) and p_["name"] not in [k for k, _ in c["named"]])
+            t.append("omitted-defaults=%d" % min(omitted, 9))
+            for m in sorted({s["meth"] + ("@path" if s["path"] else "") for b in bodies for s in b if s["op"] == "mut"}):
+                t.append("meth:" + m)
+            if any(f.get("rets") for f in pr["flows"]):
+                t.append("has:return-member")
     else:
         t.append("probe:" + case["tmpl"])
     return t
